@@ -31,10 +31,10 @@ SPEC = dict(
              'and minimal (c10_src_label_kind, c10_src_label_minimal) and whatever serialize_dict returns is THE canonical cell of the map (c10_src_canonical). Outside that domain (keys wider than the dict injected through HashMap(map_=..)) the Python dict re-keying may merge keys; not covered.',
         level_note='Trusted: Lean kernel (propext, Classical.choice, Quot.sound); Spec/Hashmap.lean as the transcription of hashmap.tlb and of '
                    'append_dict_label; Model/Hashmap.lean as a hand transcription of utils.py/parse.py (tied by sampled differential correspondence: '
-                   'for the HashMap/Slice glue - HashMap.set / serialize / parse / from_cell, Slice.load_dict.. - only; parser AND serialiser side: regenerated from parse.py / utils.py and proved equal, a value serialiser being read as a callback that appends bits and references (serCb), trusting pyrec.py, the declared interface in hashmapsrc.py and PyHm.lean as the reading of Slice/Builder/dict, validated against the library on 2.4k inputs per change; every (len,max,same) with max<=40 (<=64 thorough), tie-break boundaries for max up to 1023, random valid non-canonical trees '
+                   'for Slice.load_hashmap_aug_e, non-default deserialisers and the Builder / Slice primitives only; HashMap.set / serialize / parse / from_cell, Slice.load_dict / preload_dict / load_hashmap / load_hashmap_aug and the int-key conversion of parse_hashmap_aug are regenerated (hashmapglue.py) and proved equal to the model (c10_src_parse_hashmap_aug, c09_src_*); parser AND serialiser side: regenerated from parse.py / utils.py and proved equal, a value serialiser being read as a callback that appends bits and references (serCb), trusting pyrec.py, the declared interface in hashmapsrc.py and PyHm.lean as the reading of Slice/Builder/dict, validated against the library on 2.4k inputs per change; every (len,max,same) with max<=40 (<=64 thorough), tie-break boundaries for max up to 1023, random valid non-canonical trees '
                    'with Merkle prunings through 8 parser entry points; over-long labels of every constructor at depth 0-4 must raise); the 200-line Python->Lean translator for the label functions; '
                    'that the hash equals the on-chain one rests on c10_canonical + c10_unique + Spec/Hashmap.lean being the reference format, on C01 (cell hash), and is cross-checked on samples against an independent Python transcription of dict.cpp.',
-        technique='Lean 4 proof (label functions, label reader, parse recursion, tree building and label/edge writer regenerated from source and proved equal to the model; hand model for the HashMap / Slice glue) + differential correspondence + independent reference serialiser',
+        technique='Lean 4 proof (label functions, label reader, parse recursion, tree building and label/edge writer and the HashMap / Slice entry points regenerated from source and proved equal to the model) + differential correspondence + independent reference serialiser',
     ),
     translators=[('hashmap/utils.py->Generated/LabelFns.lean', tr.regenerate),
                  ('hashmap/parse.py+utils.py->Generated/HashmapSrc.lean', hmsrc.regenerate),
